@@ -344,7 +344,7 @@ def name_violation(table, keeps, c, rec, why):
             diff(table, kind, rec["rt"]["dump"], c["a"], keeps["keepS"], d)
             return "rt:differs:" + first_paths(d), "write->parse round trip of %s differs in %s" % (kind, sorted(d)[:6])
         if what == "parse-status":
-            return "rt:parse-status:%s:%d" % (kind, rec["rt"]["st"]), "carquet cannot parse its own %s (status %d)" % (kind, rec["rt"]["st"])
+            return "rt:parse-status:%s" % kind, "carquet cannot parse its own %s (status %d)" % (kind, rec["rt"]["st"])
         return "rt:%s:%s" % (what, kind), "round trip of %s: bytes consumed %s # produced %d" % (kind, rec["rt"]["consumed"], len(rec["w"]["bytes"]))
     what, j = why[2:].split("@")
     j = int(j) - 1
